@@ -1,6 +1,6 @@
 //! C14 — interpolated powertrain predictions stay faithful to the underlying model; generic interpolators
 use crate::engine::{close, finish, guarded, par_blocks, RunInfo, Stats, Tier};
-use ndarray::{ArrayD, IxDyn};
+use ndarray::{ArrayD, IxDyn, ShapeBuilder};
 use routee_compass_core::model::unit::as_f64::AsF64;
 use routee_compass_core::model::unit::*;
 use routee_compass_powertrain::routee::prediction::interpolation::interp::{Interp1D, Interp2D, Interp3D, InterpND, Interpolator, Strategy};
@@ -91,6 +91,34 @@ fn multilinear(code: u64, x: &[f64]) -> f64 {
 }
 fn wiggly(x: &[f64]) -> f64 {
     x.iter().enumerate().map(|(i, v)| (v * (i as f64 + 1.3)).sin() + v * v * 0.1).sum::<f64>() + x.iter().product::<f64>()
+}
+
+/// the same table of values in two further memory layouts (the values an index addresses are the same; only the order in
+/// which the elements lie in memory differs): column-major, and the layout of a table built with its first axis last and
+/// then turned round
+fn build_layouts(grid: &[Vec<f64>], f: &dyn Fn(&[f64]) -> f64) -> Vec<(&'static str, Interpolator)> {
+    let n = grid.len();
+    let shape: Vec<usize> = grid.iter().map(|g| g.len()).collect();
+    let fill = |values: &mut ArrayD<f64>| {
+        for (idx, v) in values.indexed_iter_mut() {
+            let x: Vec<f64> = (0..n).map(|i| grid[i][idx[i]]).collect();
+            *v = f(&x);
+        }
+    };
+    let mut col = ArrayD::<f64>::zeros(IxDyn(&shape).f());
+    fill(&mut col);
+    let mut out = vec![("nd_column_major", Interpolator::InterpND(InterpND::new(grid.to_vec(), col).expect("InterpND::new")))];
+    if n >= 2 {
+        let mut rot_shape: Vec<usize> = shape[1..].to_vec();
+        rot_shape.push(shape[0]);
+        let mut perm: Vec<usize> = vec![n - 1];
+        perm.extend(0..n - 1);
+        let mut rot = ArrayD::<f64>::zeros(IxDyn(&rot_shape)).permuted_axes(IxDyn(&perm));
+        assert_eq!(rot.shape(), &shape[..]);
+        fill(&mut rot);
+        out.push(("nd_first_axis_last_in_memory", Interpolator::InterpND(InterpND::new(grid.to_vec(), rot).expect("InterpND::new"))));
+    }
+    out
 }
 
 fn build(grid: &[Vec<f64>], f: &dyn Fn(&[f64]) -> f64) -> (Option<Interpolator>, Interpolator) {
@@ -193,13 +221,16 @@ fn generic(tier: Tier, st: &mut Stats) {
                 st.nontrivial += 1;
                 let f = |x: &[f64]| multilinear(code, x);
                 let (fixed, nd) = build(&grid, &f);
+                let layouts = build_layouts(&grid, &f);
                 for (p, inside) in points.iter() {
                     st.evaluations += 1;
                     st.transitions += 1;
                     st.traces += 1;
                     let case = || json!({"kind": "generic", "grid": grid, "coefficient_code": code, "point": p});
                     let want = f(p);
-                    for (name, it) in [("fixed", fixed.as_ref()), ("nd", Some(&nd))] {
+                    let mut its: Vec<(&str, Option<&Interpolator>)> = vec![("fixed", fixed.as_ref()), ("nd", Some(&nd))];
+                    its.extend(layouts.iter().map(|(n, i)| (*n, Some(i))));
+                    for (name, it) in its {
                         let it = match it {
                             Some(i) => i,
                             None => continue,
@@ -231,9 +262,12 @@ fn generic(tier: Tier, st: &mut Stats) {
             // data that is not multilinear (interpolating in the wrong cell no longer gives the right value): every interpolator
             // against the reference interpolation in the cell that holds the point
             let (fixed, nd) = build(&grid, &wiggly);
+            let layouts = build_layouts(&grid, &wiggly);
             for (p, _) in points.iter().filter(|p| p.1) {
                 let want = ref_interp(&grid, &wiggly, p);
-                for (name, it) in [("fixed", fixed.as_ref()), ("nd", Some(&nd))] {
+                let mut its: Vec<(&str, Option<&Interpolator>)> = vec![("fixed", fixed.as_ref()), ("nd", Some(&nd))];
+                its.extend(layouts.iter().map(|(n, i)| (*n, Some(i))));
+                for (name, it) in its {
                     let it = match it {
                         Some(i) => i,
                         None => continue,
